@@ -143,6 +143,43 @@ _bounded('C17',
          "No deductive part (one global representation invariant over aliased dictionaries). Explanations the HOL "
          "wrapper fails to build (exception) count as no answer.", '4 C17')
 
+_bounded('C04',
+         "Bounded stand-in (not a proof): every macro line of the recorded library proofs (as recorded and with 8 kinds "
+         "of mutation), of the states reached by generated editing sessions, generated goals for the normalisation "
+         "macros with an own evaluation, and veriT rule instances: where both an evaluation and an expansion exist, the "
+         "expansion is checked at check_level 0 and must prove the evaluated sequent with no extra hypotheses.",
+         "No deductive part. Known findings recorded for the expansions of five veriT rules (th_resolution, "
+         "eq_congruent, eq_congruent_pred, la_generic, and_simplify); see known_findings.json.", '4 C04')
+_bounded('C11',
+         "Bounded stand-in (not a proof): every item of the loadable library theories is re-parsed in the theory as it "
+         "is just before the item: accepted definitions satisfy the conservativity side conditions (own analysis), "
+         "extensions are well-typed on a scratch copy of the theory, export_json / get_display round trips give an "
+         "equal item; an adversarial family of definitions (recursive, extra variables / type variables, non-variable "
+         "or repeated arguments, polymorphic, overloaded) must be rejected or satisfy the conditions.",
+         "No deductive part. Finding repaired: Definition.parse accepted recursive definitions, right sides with type "
+         "variables absent from the constant's type, and non-variable arguments.", '4 C11')
+_bounded('C12',
+         "Bounded stand-in (not a proof): (theory, limit) targets loaded in fresh subprocesses after 11 kinds of history "
+         "(other theories, modules with import-time loads, other limits, failing loads, interrupted loads, repeated "
+         "loads) are compared with the fresh load by a digest of theory.thy.data; a modified file is re-read and an "
+         "import cycle is reported (scratch copy of the tree).",
+         "No deductive part. Finding repaired: a load interrupted by an exception left a time-stamped cache entry "
+         "without (or with partial) content.", '4 C12')
+_bounded('C14',
+         "Bounded stand-in (not a proof): at the states reached by generated editing sessions and recorded library "
+         "steps, every suggestion of search_method (for random goal / fact selections) is applied to a copy: it "
+         "succeeds or asks for parameters, leaves only advertised subgoals, none when advertised as solving, and "
+         "advertised facts appear as new proved lines.",
+         "No deductive part. Findings repaired: exists_elim dropping subproofs of later lines; backward steps "
+         "suggested up to eta.", '4 C14')
+_bounded('C18',
+         "Bounded stand-in (not a proof): for every veriT rule taking the conclusion clause as arguments, all clauses "
+         "of <= 2 (thorough 3) literals over the components of a principal formula are offered with premises none / "
+         "phi / ~phi; resolution chains, equality chains, rewrite-style rules and Farkas combinations have dedicated "
+         "generators with near misses. Every accepted conclusion must follow (z3, own encoding) from the premises whose "
+         "hypotheses it carries.",
+         "No deductive part. Findings repaired in 16 rule evaluations (connective / length checks, hypotheses). Rules "
+         "with binders and contexts (refl, bind, sko_*, onepoint, forall_inst, qnt_*) are not exercised.", '4 C18')
 _bounded('C06',
          "Bounded stand-in (not a proof): directed and generated goals of the translatable fragment (quantifiers over "
          "nat/int/real/bool in both polarities, truncated subtraction, division, of_nat, functions, sets) given to "
